@@ -573,7 +573,7 @@ def _fuzz_stage(col, cfg):
         for d in (corpus, outdir, art):
             os.makedirs(d)
         env = dict(os.environ)
-        env["PYTHONPATH"] = os.pathsep.join([REPO, VERIF, os.path.join(VERIF, ".deps")])
+        env["PYTHONPATH"] = os.pathsep.join([REPO, VERIF, os.path.join(VERIF, ".deps"), "/verif/.deps"])   # second entry: snapshot runs (vp run) share the installed copy
         env["PYTHONHASHSEED"] = "0"
         env["C13_FUZZ_OUT"] = outdir
         runs = int(cfg["fuzz_runs"]) // max(1, col.nshards)
